@@ -63,6 +63,17 @@ def run(ctx):
               "the quantum INC = %s and the rounding round(..., %s) of the totals disagree: totals are no longer multiples of the "
               "quantum and the comparison of port sums (hence termination and the bottleneck bound) breaks" % (
                   U(inc.value) if inc is not None else None, U(rd[0][1]["M_d"]) if rd else None), f.qname, "quantum agreement")
+    # the totals are rounded ONCE, after the unrounded per-line values were summed
+    rounds = [c for c in ast.walk(s.node) if isinstance(c, ast.Call) and isinstance(c.func, ast.Name) and c.func.id == "round"]
+    outer = [c for c in rounds if c.args and any(isinstance(x, ast.Call) and isinstance(x.func, ast.Name) and x.func.id in ("sum", "fsum")
+                                                 for x in ast.walk(c.args[0]))]
+    inner = [c for c in rounds if c not in outer]
+    ctx.judge(len(outer) == 1 and not inner, len(outer) >= 1 and len(rounds) >= 1, "P2",
+              "per-port totals = round(sum(unrounded per-line values)) - rounded once", s.where(inner[0]) if inner else s.where(),
+              "get_throughput_sum also rounds the per-line values (`%s`) before summing them: each line can lose up to half a "
+              "rounding step, the losses add up over the lines, and the reported bottleneck undercuts the exact optimum by more "
+              "than one rounding step (4 micro-ops on 3 ports: 4 x 0.33 = 1.32 against 4/3)" % (U(inner[0])[:80] if inner else ""),
+              s.qname, "single rounding")
     rng = sl.iter
     ctx.check(U(rng) in ("range(int(cycles * (1 / INC)))", "range(int(cycles / INC))", "range(round(cycles / INC))"), "P2",
               "at most cycles / INC steps per micro-op", f.where(sl), "step budget is %s" % U(rng), f.qname, "step budget")
